@@ -146,17 +146,34 @@ def _gcd_terms(ctx):
     ok_map = isinstance(first, ast.Assign) and isinstance(first.value, ast.Call) and dotted(first.value.func) == "map" \
         and norm(first.value.args[0]) in ("np.radians", "np.deg2rad") and isinstance(first.targets[0], ast.Tuple) \
         and [norm(e) for e in first.targets[0].elts] == [norm(e) for e in first.value.args[1].elts]
-    if not ok_map:
-        raise AnalysisError("great_circle_distance: conversion of the four angles to radians not recognised")
     p1, l1, p2, l2 = sp.symbols("p1 l1 p2 l2", real=True)
-    env = {names[0]: p1, names[1]: l1, names[2]: p2, names[3]: l2, f.params[4]: None}
-    ev = Sym(ctx.repo)
-    rest = f.body[1:]
     R = sp.Symbol("R", positive=True)
+    if ok_map:
+        env = {names[0]: p1, names[1]: l1, names[2]: p2, names[3]: l2, f.params[4]: None}
+        rest = f.body[1:]
+        env_r = dict(env)
+        env_r[f.params[4]] = R
+        val_deg = Sym(ctx.repo).block(rest, dict(env), f, 0)
+        val_r = Sym(ctx.repo).block(rest, env_r, f, 0)
+        return f, (p1, l1, p2, l2), val_deg, val_r, R
+    # spelled out: every angle goes through np.radians / np.deg2rad exactly once before it is used
+    raw = sp.symbols("p1_deg l1_deg p2_deg l2_deg", real=True)
+    rad = dict(zip(raw, (p1, l1, p2, l2)))
+
+    def to_rad(u):
+        if u in rad:
+            return rad[u]
+        raise AnalysisError("great_circle_distance: np.radians applied to %s, not to one of the four angles" % u)
+    hooks = {"radians": to_rad, "deg2rad": to_rad}
+    env = dict(zip(names, raw))
+    env[f.params[4]] = None
     env_r = dict(env)
     env_r[f.params[4]] = R
-    val_deg = ev.block(rest, dict(env), f, 0)
-    val_r = Sym(ctx.repo).block(rest, env_r, f, 0)
+    val_deg = Sym(ctx.repo, hooks=hooks).block(f.body, dict(env), f, 0)
+    val_r = Sym(ctx.repo, hooks=hooks).block(f.body, env_r, f, 0)
+    left = (val_deg.free_symbols | val_r.free_symbols) & set(raw)
+    if left:
+        raise AnalysisError("great_circle_distance: conversion of the four angles to radians not recognised (%s used in degrees)" % sorted(map(str, left)))
     return f, (p1, l1, p2, l2), val_deg, val_r, R
 
 
@@ -218,9 +235,11 @@ def rule_fixpoint(ctx):
     hooks["method"] = lambda base, n, *r: base if n.func.attr == "copy" else NotImplemented
     ev = Sym(ctx.repo, hooks=hooks)
     envl = dict(env)
+    inloop = {n.id for st in w.body for n in ast.walk(st) if isinstance(n, ast.Name) and isinstance(n.ctx, ast.Store)} | set(f.params)
     for st in w.body:
         if isinstance(st, ast.Assign) and isinstance(st.targets[0], ast.Name):
-            envl[st.targets[0].id] = ev.expr(st.value, envl, f, 0)
+            # loop-invariant temporaries defined before the loop are looked through
+            envl[st.targets[0].id] = ev.expr(flow.resolve(st.value, at=st, stop=tuple(inloop)), envl, f, 0)
     rel = [sB ** 2 + cB ** 2 - 1]
     hn = envl.get("h")
     Bn = envl.get("B0")
